@@ -11,11 +11,15 @@ import (
 
 // DrawSpec draws one spec of the pool (valid and invalid ones).
 func DrawSpec(t *rapid.T, label string) *Spec {
-	switch k := rapid.IntRange(0, 9).Draw(t, label+"Kind"); {
+	switch k := rapid.IntRange(0, 11).Draw(t, label+"Kind"); {
 	case k <= 4:
 		return DrawSchemaSpec(t, label, k%3)
 	case k == 5:
 		return DrawSchemaSpec(t, label, 3)
+	case k == 10:
+		return DrawSchemaSpec(t, label, 4)
+	case k == 11:
+		return DrawSchemaSpec(t, label, 5)
 	case k == 6:
 		v := gen.Value(t, gen.DocOpts{Depth: 3, Width: 3, Exp: true, StrLen: 4}, label+"V")
 		text := string(gen.Print(v, gen.RapidBlanks(t, label+"WS")))
@@ -32,11 +36,12 @@ func DrawSpec(t *rapid.T, label string) *Spec {
 	case k == 7 || k == 8:
 		return &Spec{Kind: "enum", Text: rapid.SampledFrom([]string{"[1, 2, \"a\"]", "[\n 1, // one\n \"a\" /* b */\n]", "[]", "[1, 1]", "[true, null, 1.5] x", "[1,", "42"}).Draw(t, label+"Enum")}
 	}
-	return &Spec{Kind: "regex", Text: rapid.SampledFrom([]string{"/^a+$/", "/[0-9]{2,3}/ tail", "/a\\/b/", "/x|y/", "abc", "/("}).Draw(t, label+"Regex")}
+	return &Spec{Kind: "regex", Text: rapid.SampledFrom([]string{"/^a+$/", "/[0-9]{2,3}/ tail", "/a\\/b/", "/x|y/", "abc", "/(", "/[a-z]{8}/", "/[a-z]{1}[0-9]?[A-Z]*(x|y|z)+/", "/\\Bfoo/"}).Draw(t, label+"Regex")}
 }
 
 // DrawSchemaSpec: family 0 type graph, 1 ruled tree, 2 reference graph (recursion, missing types),
-// 3 a root that inherits (allOf) from types which themselves refer to further types.
+// 3 a root that inherits (allOf) from types which themselves refer to further types, 4 regex
+// types, 5 types wired to each other.
 func DrawSchemaSpec(t *rapid.T, label string, family int) *Spec {
 	sp := &Spec{Kind: "schema"}
 	switch family {
@@ -97,6 +102,34 @@ func DrawSchemaSpec(t *rapid.T, label string, family int) *Spec {
 			sp.Schema.Types = sp.Schema.Types[:rapid.IntRange(3, 6).Draw(t, label+"NTypes")]
 		}
 		sp.Docs = append(sp.Docs, `{"id":1,"own":"x","lo":1.5,"d":["t"],"n":1}`, `{"id":1,"tag":"t","m":2,"own":"x"}`, `{"own":"x"}`, `{"id":-1,"n":1,"lo":2.5,"d":[]}`)
+	case 4:
+		// regex types: the example of the type is generated when it is added and becomes part of the schema
+		sp.Schema = lib.Spec{Schema: "{\n  \"code\": @rx,\n  \"tags\": [@word], // {optional: true}\n  @word: 1 // {optional: true}\n}", Types: []lib.Named{
+			{Name: "@rx", Text: rapid.SampledFrom([]string{"/[a-z]{8}/", "/[a-z]{1}[0-9]?[A-Z]*(x|y|z)+/", "/^[0-9]{2,5}$/"}).Draw(t, label+"Rx"), Regex: true},
+			{Name: "@word", Text: rapid.SampledFrom([]string{"/^[a-z]{3,6}$/", "/[A-Z][a-z]+/"}).Draw(t, label+"Word"), Regex: true},
+		}}
+		sp.Docs = append(sp.Docs, `{"code":"abcdefgh"}`, `{"code":"a1Xz","tags":["abc"],"abcd":1}`, `{"code":12}`, `{}`)
+	case 5:
+		// types that know each other (every type object has the other types added to itself), with
+		// anonymous types from "or" rule sets two levels below the root
+		sp.Schema = lib.Spec{TypesKnowTypes: true, Schema: rapid.SampledFrom([]string{"@t", "{\n  \"r\": @t,\n  \"i\": @x // {optional: true}\n}", "@t | @x"}).Draw(t, label+"Root"), Types: []lib.Named{
+			{Name: "@t", Text: "{\n  \"k\": @x,\n  \"u\": @user // {optional: true}\n}"},
+			{Name: "@x", Text: "1 // {or: [{type: \"integer\"}, {type: \"string\"}]}"},
+			{Name: "@user", Text: "{\n  \"name\": \"n\", // {or: [{type: \"string\", minLength: 1}, {type: \"null\"}]}\n  \"it\": @x // {optional: true}\n}"},
+		}}
+		if rapid.Bool().Draw(t, label+"Rev") {
+			sp.Schema.Types[0], sp.Schema.Types[2] = sp.Schema.Types[2], sp.Schema.Types[0]
+		}
+		if rapid.Bool().Draw(t, label+"InnerOnly") {
+			// the root is given @t only: it gets to know @x and @user (and the anonymous types of
+			// their "or" rule sets) through @t, to which they were added
+			x := lib.Named{Name: "@x", Text: "1 // {or: [{type: \"integer\"}, {type: \"string\"}]}"}
+			user := lib.Named{Name: "@user", Text: "{\n  \"name\": \"n\", // {or: [{type: \"string\", minLength: 1}, {type: \"null\"}]}\n  \"it\": @x // {optional: true}\n}", Inner: []lib.Named{x}}
+			sp.Schema = lib.Spec{Schema: rapid.SampledFrom([]string{"@t", "{\n  \"r\": @t\n}", "[@t]"}).Draw(t, label+"InnerRoot"),
+				Types: []lib.Named{{Name: "@t", Text: "{\n  \"k\": @x,\n  \"u\": @user // {optional: true}\n}", Inner: []lib.Named{x, user}}}}
+			sp.Docs = []string{`{"k":1}`, `{"k":"s","u":{"name":null,"it":2}}`, `{"r":{"k":1}}`, `[{"k":1}]`, `{"k":true}`}
+		}
+		sp.Docs = append(sp.Docs, `{"k":1}`, `{"k":"s","u":{"name":null}}`, `{"r":{"k":1},"i":"x"}`, `1`, `{"k":true}`)
 	default:
 		gc := gen.GenRefGraph(t, label+"R")
 		pg := gc.Print(nil)
